@@ -410,6 +410,9 @@ class CmdMixin(object):
             return
         self.ev["c03_same_id"] += 1
         mid = claimed[0]["mailbox"]
+        if n.unknown_origin and self.retired_np.get(key) == mid:
+            self.flag({"C03"}, "claim after the nameplate's retirement is told the previous incarnation's mailbox id", st,
+                      {"name": name, "mailbox": mid})
         if mid != n.mid:
             self.flag({"C03"}, "claimants of one nameplate told different mailbox ids", st,
                       {"name": name, "told": mid, "earlier": n.mid})
@@ -530,6 +533,9 @@ class CmdMixin(object):
                 self.ev["c07_gone_after_last_release"] += 1
                 if not gone:
                     self.flag({"C07"}, "nameplate still stored after its last release", st, {"name": name})
+                    # the incarnation is over whatever the store says (C03 judges the next claim against this)
+                    self.retired_np[(cm.app, name)] = n.mid
+                    self.np.pop((cm.app, name), None)
         # effects acknowledged by `released` are committed (C09 c)
         self.ev["c09_effects_released"] += 1
         if not gone:
